@@ -65,6 +65,13 @@ def proofStep (key : Bytes) (m : Mac Bytes) : Sx → Option (Mac Bytes × String
     let pm ← decode (← p.bytes?)
     let (m', e) := bindTo m pm
     some (m', match e with | none => "bind:ok" | some e => "bind:" ++ aerrName e)
+  | .list [.atom "bindcopy", p] => do
+    -- Bind on a decoded copy of the (encoded) proof: the proof itself is unchanged
+    let pm ← decode (← p.bytes?)
+    let (m', b) := encode m
+    match b.bind decode with
+    | some c => some (m', match (bindTo c pm).2 with | none => "bind:ok" | some e => "bind:" ++ aerrName e)
+    | none => some (m', "bind:err")
   | .atom "cloneadd" =>
     -- adding to a decoded copy must be refused once the proof is finalised
     let (m', b) := encode m
